@@ -113,7 +113,8 @@ def file_case(draw, tier):
     nops = draw(st.integers(1, 200 if tier == "thorough" else 40))
     ops = draw(st.lists(op_strategy(), min_size=1, max_size=nops))
     return {"layout": layout, "records": records, "title": title, "box": box, "vel": vel, "ops": ops,
-            "prior": draw(st.booleans()), "crlf": draw(st.integers(0, 4)) == 0, "fresh_for_ops": draw(st.booleans())}
+            "prior": draw(st.booleans()), "crlf": draw(st.integers(0, 4)) == 0, "fresh_for_ops": draw(st.booleans()),
+            "naming": draw(st.sampled_from(["abs", "abs", "abs", "rel-chdir", "handle-rel-chdir", "replaced", "renamed", "handle-replaced"]))}
 
 
 @st.composite
@@ -144,15 +145,43 @@ def residue_records(res):
 
 
 def check(case):
-    path = env.fresh_path(".gro")
+    cwd0 = os.getcwd()
+    handles = []
+    try:
+        return _check(case, handles)
+    finally:
+        os.chdir(cwd0)
+        for h in handles:
+            h.close()
+
+
+def _check(case, handles):
+    # naming: how the file is named when it is loaded and what becomes of that name afterwards - a relative name and a
+    # later change of the working directory (to one that holds another file of that name), a file replaced or renamed
+    # on disk after loading (the loaded object keeps reading the file it opened)
+    naming = case.get("naming", "abs")
+    d1 = env.fresh_dir()
+    path = os.path.join(d1, "conf.gro")
     records = [tuple(r) for r in case["records"]]
+    decoy = [tuple(r[:4]) + tuple(-v for v in r[4:]) for r in records[::-1]]
+    decoy = [(r[0], r[1], r[2], k + 1) + tuple(r[4:]) for k, r in enumerate(decoy)]
+    lpath = path
+    if "rel" in naming:
+        os.chdir(d1)
+        lpath = "conf.gro"
+
+    def source():
+        if naming.startswith("handle"):
+            handles.append(open(lpath))
+            return handles[-1]
+        return lpath
     if case.get("prior"):
         # the same path held another file of the same size (and modification time) before, and was read through the library
         other = [tuple(r[:4]) + tuple(-v for v in r[4:]) for r in records[::-1]]
         other = [(r[0], r[1], r[2], k + 1) + tuple(r[4:]) for k, r in enumerate(other)]
         indep.write_gro(path, case["title"], other, case["box"][::-1])
         os.utime(path, (1700000000, 1700000000))
-        old = lib("load", SystemGro, path)
+        old = lib("load", SystemGro, source())
         lib("iterate", list, old)
         del old
     indep.write_gro(path, case["title"], records, case["box"], newline="\r\n" if case.get("crlf") else None)
@@ -161,7 +190,7 @@ def check(case):
     parsed = indep.read_gro(path)
     model = indep.split_residues(parsed["records"])
     n = len(model)
-    sg = lib("load", SystemGro, path)
+    sg = lib("load", SystemGro, source())
 
     def same(res, k, what):
         got = residue_records(res)
@@ -192,7 +221,16 @@ def check(case):
         # the access history runs on an object that has not been walked completely before (whatever it builds lazily
         # is still incomplete); the first object stays alive beside it
         sg_first = sg
-        sg = lib("load", SystemGro, path)
+        sg = lib("load", SystemGro, source())
+    if naming != "abs":
+        d2 = env.fresh_dir()
+        indep.write_gro(os.path.join(d2, "conf.gro"), case["title"], decoy, case["box"][::-1])
+        if "rel" in naming:
+            os.chdir(d2)
+        elif "replaced" in naming:
+            os.replace(os.path.join(d2, "conf.gro"), path)
+        else:
+            os.rename(path, path + ".moved")
     iters = []          # [iterator, position]
     partial = False
     backward = False
@@ -267,7 +305,8 @@ def check(case):
                         "residues:%s" % ("1" if n == 1 else "2-14" if n <= 14 else "15+"),
                         "rewritten-path" if case.get("prior") else "fresh-path",
                         "crlf" if case.get("crlf") else "lf", "ops-on:" + ("fresh-object" if case.get("fresh_for_ops") else "walked-object"),
-                        "zero-velocity-atom" if any(len(r) == 10 and not any(r[7:]) for r in records) else "no-frozen-atom"],
+                        "zero-velocity-atom" if any(len(r) == 10 and not any(r[7:]) for r in records) else "no-frozen-atom",
+                        "naming:" + naming],
             "sample": {"layout": case["layout"], "n_residues": n, "first_records": case["records"][:3], "ops": case["ops"][:12]}}
 
 
